@@ -15,9 +15,9 @@ Import ListNotations.
 Open Scope Z_scope.
 
 (* helpers.precise_diff as called by Interval: pure Python (rs = false) or compiled (rs = true; Interval passes native
-   datetime objects, so the `is_exact_type_of` test on the second operand succeeds) *)
+   datetime objects) *)
 Definition pd_backend (rs : bool) (s e : pdt) : result pdiff :=
-  if rs then Ok (rs_precise_diff s e true) else py_precise_diff s e.
+  if rs then Ok (rs_precise_diff s e) else py_precise_diff s e.
 
 (* what Interval.__init__ hands to precise_diff: datetime(year, ..., microsecond, tzinfo=x.tzinfo) — WITHOUT fold=, so the native
    value reads its wall time with fold 0: its utcoffset() is off0, the offset of the first occurrence (= the true offset unless
